@@ -283,7 +283,7 @@ func (li *limbInterp) get(v ssa.Value) *lval {
 		// bool / nil
 		return &lval{iv: IV{new(big.Int), big.NewInt(1)}}
 	case *ssa.Parameter:
-		if k, ok := li.consts[c.Name()]; ok {
+		if k, ok := li.consts[paramTag(c)]; ok {
 			return &lval{iv: ivConst(k)}
 		}
 		if lo, hi, ok := intRange(c.Type()); ok && lo.Sign() == 0 {
@@ -330,7 +330,7 @@ func (li *limbInterp) limbAddr(v ssa.Value) (string, int, bool) {
 	if !ok {
 		return "", 0, false
 	}
-	return p.Name(), int(k.Int64()), true
+	return paramTag(p), int(k.Int64()), true
 }
 
 func (li *limbInterp) step(ins ssa.Instruction) {
@@ -670,4 +670,15 @@ func (r *LimbResult) SortedOut() []string {
 	}
 	sort.Strings(ks)
 	return ks
+}
+
+// paramTag names a parameter by position ("#0" is the receiver), so that contracts do not depend on the
+// names chosen in the source.
+func paramTag(p *ssa.Parameter) string {
+	for i, q := range p.Parent().Params {
+		if q == p {
+			return fmt.Sprintf("#%d", i)
+		}
+	}
+	return p.Name()
 }
